@@ -18,7 +18,7 @@ import gens
 import check
 
 GEN = ['numeric']
-LEAN_MODULES = ['XfabVerif.Proofs.C18']
+LEAN_MODULES = ['XfabVerif.Proofs.C18', 'XfabVerif.Proofs.C18Basis']
 # definitions the hand-written model mirrors (see harness/pins.py): a source change breaks the tie
 PINS = ['xfab/tools.py:reduce_cell', 'xfab/laue.py:reduce_cell']
 LEAN_DRIVER_MODULES = ['XfabVerif.Model.Reduce']
@@ -32,8 +32,10 @@ RULE = ("correspondence: rational metric tensors (denominators <= 16) of kinds r
 ASSUMPTIONS = [
     "the sort, the two loops and the 1e-5 thresholds of reduce_cell are hand-modelled (not traced); the thresholds are modelled as "
     "exact tests and inputs within [1e-9, 1e-4] of them are skipped",
-    "that three successive-minima vectors of a 3-D lattice form a basis is not proved (geometry of numbers); |det M| = 1 is computed "
-    "per input by the model and the oracle",
+    "that the three selected vectors form a basis (det M = -1) is PROVED (Proofs/C18Basis.lean, Lemmas/Minkowski3.lean) under the "
+    "hypothesis BallInBox = the search range contains every lattice vector shorter than the third selected one; the executable "
+    "sufficient test Reduce.ballCheck certifies it per input (evidence: ball_certified); for inputs it does not certify, |det M| = 1 "
+    "is computed by the model and the oracle",
     "IEEE rounding is not modelled: distinct lengths closer than 1e-9 relative are skipped (counted in stats)",
 ]
 TRUSTED_EXTRA = ["hand model XfabVerif/Model/Reduce.lean of reduce_cell's selection, validated against the implementation on every run"]
@@ -317,7 +319,7 @@ def parse_line(line):
     if not line.startswith('ok '):
         return None
     d = dict(kv.split('=', 1) for kv in line[3:].split())
-    return {'sel': parse_sel(d['sel']), 'det': int(d['det']), 'true': [Fraction(x) for x in d['true'].split(',')],
+    return {'sel': parse_sel(d['sel']), 'det': int(d['det']), 'ball': d.get('ball') == 'true', 'true': [Fraction(x) for x in d['true'].split(',')],
             'coded': [Fraction(x) for x in d['coded'].split(',')], 'adm': [parse_sel(s) for s in d['adm'].split('|')]}
 
 
@@ -334,7 +336,7 @@ def correspondence(ctx):
     outs = check.run_model_driver('ReduceDriver.lean', lines)
     dis, ncase, nontriv = [], 0, 0
     stats = {'kinds': kinds, 'near_tie_skipped': 0, 'threshold_skipped': 0, 'matched_canonical': 0, 'matched_other_tie_order': 0,
-             'exact_ties_beyond_sign': 0, 'max_admissible': 0, 'det_not_unit': 0}
+             'exact_ties_beyond_sign': 0, 'max_admissible': 0, 'det_not_unit': 0, 'ball_certified': 0}
     sample = None
     for (g6, kind, uvw), line in zip(cases, outs):
         cell = cell_of_metric(g6)
@@ -355,6 +357,13 @@ def correspondence(ctx):
             stats['exact_ties_beyond_sign'] += 1
         if abs(mo['det']) != 1:
             stats['det_not_unit'] += 1
+        if mo['ball']:
+            # C18.admissible_unimodular_of_check: every admissible outcome then has det M = -1 (theorem observed on the model)
+            stats['ball_certified'] += 1
+            for sel in mo['adm']:
+                if int_det(sel) != -1:
+                    dis.append({'fn': 'Reduce.ballCheck', 'metric': [fr(x) for x in g6], 'uvw': uvw,
+                                'model': 'ballCheck = true', 'py': 'admissible outcome %s has det %d' % (sel, int_det(sel))})
         # internal consistency of the model's exact Gram outputs with the traced a_to_cell / form_a_mat
         Mc = np.array(mo['sel'], dtype=float)
         tg = Mc @ Gf @ Mc.T
